@@ -140,7 +140,7 @@ def module_state(prop, tier, seed):
                 dn = ast.unparse(dec)
                 if any(x in dn for x in ('cache', 'lru_cache', 'memo')):
                     hits.append('%s:%s is memoised by @%s' % (m, fname, dn))
-    obs.append(ob('C11:package:no-module-level-state-is-written-by-any-function', ['C11', 'C10', 'C17', 'C18', 'C14'], not hits,
+    obs.append(ob('C11:package:no-module-level-state-is-written-by-any-function', ['C11', 'C10', 'C17', 'C18', 'C14', 'C02', 'C07'], not hits,
                   {'occurrences': sorted(set(hits))}))
     return obs, {}
 
@@ -350,7 +350,42 @@ def lexer_facts(prop, tier, seed):
 
 extras.register(['C08', 'C04'], decimal_context)
 extras.register(['C05'], regex_timeout_constant)
-extras.register(['C11', 'C10', 'C17', 'C18', 'C14'], module_state)
+extras.register(['C11', 'C10', 'C17', 'C18', 'C14', 'C02', 'C07'], module_state)
+
+
+def limit_error_handlers(prop, tier, seed):
+    """C01: the limit error raised by Op.eval reaches the caller of SqParser.eval unchanged.  Structural part: no
+    `except` clause of the package can catch it (its class chain is OpsExecutionLimitExceededError < ParserError <
+    Exception < BaseException) unless the handler does nothing but re-raise it.  The symbolic part
+    (exhausted-budget-leaves-as-the-limit-error) covers what the model can see; this scan also covers calls into
+    host code the model does not follow (an element's __eq__, a key function)."""
+    src = _src()
+    exc = src.exception_classes()
+    chain = ['OpsExecutionLimitExceededError']
+    while chain[-1] in exc:
+        chain.append(exc[chain[-1]].split('.')[-1])
+    chain += [c for c in ('Exception', 'BaseException') if c not in chain]
+    obs = []
+    for m in src.trees:
+        for fname, fn in functions_of(src.trees[m]):
+            for n in ast.walk(fn):
+                if not isinstance(n, ast.ExceptHandler):
+                    continue
+                if n.type is None:
+                    names = ['<bare except>']
+                    catches = True
+                else:
+                    ts = n.type.elts if isinstance(n.type, ast.Tuple) else [n.type]
+                    names = [ast.unparse(t).split('.')[-1] for t in ts]
+                    catches = any(x in chain for x in names)
+                reraises = bool(n.body) and isinstance(n.body[-1], ast.Raise) and n.body[-1].exc is None and \
+                    not any(isinstance(x, (ast.Return, ast.Continue, ast.Break)) for b in n.body for x in ast.walk(b))
+                obs.append(ob('C01:%s:%s:handler-cannot-swallow-or-convert-the-limit-error[except %s]' % (m, fname, ', '.join(names)),
+                              ['C01', 'C16'], (not catches) or reraises, {'line': n.lineno, 'limit_error_chain': chain, 'soft': True}))
+    return obs, {}
+
+
+extras.register(['C01', 'C16'], limit_error_handlers)
 extras.register(['C02', 'C16'], confinement)
 extras.register(['C20', 'C15', 'C16', 'C06', 'C18'], lexer_facts)
 
@@ -523,6 +558,14 @@ def lexical_grammar(prop, tier, seed):
         if name in regs:
             obs.append(ob('C15:%s:token-regex-is-the-published-one' % name, ['C15', 'C06'], regs[name].strip() == pub.strip(),
                           {'regex': regs[name], 'published': pub}))
+    # the number class of the language: decimal.Decimal with another repr and nothing else (the model does not
+    # distinguish the two; a __str__ / __format__ / __eq__ / __hash__ of its own would make literals differ from computed numbers)
+    ci = src.classes.get('Decimal')
+    if ci is not None:
+        meths = sorted(m.name for m in ci.node.body if isinstance(m, (ast.FunctionDef, ast.AsyncFunctionDef)))
+        extra_stmts = [type(m).__name__ for m in ci.node.body if not isinstance(m, (ast.FunctionDef, ast.Pass, ast.Expr))]
+        obs.append(ob('C08:custom_types.Decimal:overrides-only-__repr__', ['C08', 'C04', 'C07', 'C14', 'C19'],
+                      meths == ['__repr__'] and not extra_stmts, {'methods': meths, 'other_statements': extra_stmts}))
     # exception classes: the driver and Python's own machinery treat some classes specially
     exc = src.exception_classes()
     chain = []
@@ -530,7 +573,7 @@ def lexical_grammar(prop, tier, seed):
     while c in exc:
         c = exc[c].split('.')[-1]
         chain.append(c)
-    obs.append(ob('C16:exceptions:ParserError-derives-directly-from-Exception', ['C16', 'C01'], chain == ['Exception'],
+    obs.append(ob('C16:exceptions:ParserError-derives-directly-from-Exception', ['C16', 'C01', 'C06', 'C15', 'C20', 'C07'], chain == ['Exception'],
                   {'bases': chain, 'why': 'PLY\'s LR driver catches SyntaxError raised by an action and enters error recovery; generators turn StopIteration into RuntimeError; handlers for LookupError in the evaluator would swallow it'}))
     lim = 'OpsExecutionLimitExceededError'
     obs.append(ob('C16:exceptions:ops-limit-error-derives-from-ParserError', ['C16', 'C01'], exc.get(lim, '').split('.')[-1] == 'ParserError',
@@ -538,4 +581,4 @@ def lexical_grammar(prop, tier, seed):
     return obs, {}
 
 
-extras.register(['C15', 'C06', 'C18', 'C20', 'C16', 'C01', 'C08'], lexical_grammar)
+extras.register(['C15', 'C06', 'C18', 'C20', 'C16', 'C01', 'C08', 'C07', 'C04', 'C14', 'C19'], lexical_grammar)
